@@ -192,6 +192,34 @@ impl GenTl {
     }
 }
 
+/// keyframe positions to draw from: the coarse lattice, and (half of the time) clusters of positions that
+/// are closer together than one percent, one ulp apart, or uniformly random — positions are arbitrary reals
+/// in [0,1], not whole percents
+fn pos_pool(r: &mut Rng, exact: bool) -> Vec<f32> {
+    let base: &[f32] = if exact { &DYADIC } else { &LATTICE };
+    let mut pool = base.to_vec();
+    if r.chance(1, 2) {
+        for _ in 0..2 {
+            let p = base[r.below(base.len() as u64 - 1) as usize];
+            if exact {
+                for d in [1.0f32 / 256.0, 1.0 / 128.0, 3.0 / 256.0] { if r.chance(2, 3) { pool.push(p + d); } }
+            } else {
+                for d in [0.001f32, 0.004, 0.0075] { if r.chance(2, 3) { pool.push(p + d); } }
+                if r.chance(1, 2) { pool.push(nudge(p, 1)); }
+            }
+        }
+        if !exact {
+            pool.push(r.unit_f32());
+            pool.push(r.unit_f32());
+        }
+        pool.retain(|x| *x >= 0.0 && *x <= 1.0);
+        pool.dedup();
+        let mut seen: Vec<f32> = Vec::new();
+        pool.retain(|x| if seen.contains(x) { false } else { seen.push(*x); true });
+    }
+    pool
+}
+
 pub fn gen_timeline(r: &mut Rng, shape: &str, exact: bool, tame: bool) -> GenTl {
     let fields = shape_fields(shape);
     let anim: Vec<&str> = fields.iter().filter(|f| f.1).map(|f| f.0).collect();
@@ -201,15 +229,15 @@ pub fn gen_timeline(r: &mut Rng, shape: &str, exact: bool, tame: bool) -> GenTl 
     let rev = if r.chance(1, 4) { None } else { Some(r.chance(1, 2)) };
     let easing = if r.chance(1, 4) { None } else { Some(easing_tok(r, !exact)) };
     let nkf = match r.below(10) { 0 => 0, 1 => 1, 2 | 3 => 2, 4 | 5 => 3, 6 => 4, 7 => 5, 8 => 6, _ => 8 } as usize;
-    let lattice: &[f32] = if exact { &DYADIC } else { &LATTICE };
+    let lattice: Vec<f32> = pos_pool(r, exact);
     // per-field presence probability (some fields never present: sentinels)
     let presence: Vec<u64> = anim.iter().map(|_| r.pick(&[0u64, 0, 1, 2, 3, 4, 4])).collect();
     let distinct = r.chance(1, 2);
     let mut kfs = Vec::new();
-    let mut pool: Vec<f32> = lattice.to_vec();
+    let mut pool: Vec<f32> = lattice.clone();
     r.shuffle(&mut pool);
     for i in 0..nkf {
-        let pos = if distinct { if i < pool.len() { pool[i] } else { break } } else { r.pick(lattice) };
+        let pos = if distinct { if i < pool.len() { pool[i] } else { break } } else { r.pick(&lattice) };
         let e = if r.chance(1, 3) { Some(easing_tok(r, !exact)) } else { None };
         let vals = anim.iter().zip(presence.iter()).map(|(k, p)| if r.below(4) < *p { Some(val_tok(r, k, tame)) } else { None }).collect();
         kfs.push(GenKf { pos, easing: e, vals });
@@ -239,6 +267,18 @@ pub fn times_for(r: &mut Rng, tl: &GenTl, n_random: usize) -> Vec<f32> {
             if tl.rev_v() {
                 ts.push(delay + dur * (k as f32 + *p * 0.5));
             }
+        }
+    }
+    // keyframe-directed: every keyframe position that is off the lattice, and the midpoints between neighbours
+    let mut ps: Vec<f32> = tl.kfs.iter().map(|k| k.pos).collect();
+    ps.sort_by(|a, b| a.total_cmp(b));
+    ps.dedup();
+    let mids: Vec<f32> = ps.windows(2).map(|w| (w[0] + w[1]) * 0.5).collect();
+    for p in ps.iter().chain(mids.iter()) {
+        if lattice.contains(p) { continue; }
+        for k in 0..=maxk.min(1) {
+            ts.push(delay + dur * (k as f32 + *p));
+            if tl.rev_v() { ts.push(delay + dur * (k as f32 + *p * 0.5)); ts.push(delay + dur * (k as f32 + 1.0 - *p * 0.5)); }
         }
     }
     if let Some(c) = tl.cycles() {
@@ -445,17 +485,20 @@ fn gen_tl(r: &mut Rng, n: usize, out: &mut dyn Write) {
         r.shuffle(&mut perm.kfs);
         writeln!(out, "{}", perm.line(1)).unwrap();
         writeln!(out, "{}", tl.line(2)).unwrap();
+        writeln!(out, "{}", tl.line(4)).unwrap();
         let distinct = tl.distinct_positions();
         let start: Option<Vec<String>> = if r.chance(1, 2) { Some(vals_line(r, shape, tame)) } else { None };
         if let Some(sv) = &start {
             // an earlier start_with that must be fully replaced (C09)
-            if r.chance(1, 3) {
+            // (twin 4 only ever sees the latest one)
+            for _ in 0..r.below(3) {
                 let junk = vals_line(r, shape, tame);
                 writeln!(out, "start 0 {}", junk.join(" ")).unwrap();
                 writeln!(out, "start 1 {}", junk.join(" ")).unwrap();
             }
             writeln!(out, "start 0 {}", sv.join(" ")).unwrap();
             writeln!(out, "start 1 {}", sv.join(" ")).unwrap();
+            writeln!(out, "start 4 {}", sv.join(" ")).unwrap();
             writeln!(out, "meta 0").unwrap();
             // start_with leaves delay / duration / repeat untouched (C09)
             writeln!(out, "meta 2").unwrap();
@@ -477,7 +520,12 @@ fn gen_tl(r: &mut Rng, n: usize, out: &mut dyn Write) {
             if tl.kfs.is_empty() {
                 writeln!(out, "# expect C08 2 {}", (0..fields.len()).map(|i| format!("{}={}", i, target[i])).collect::<Vec<_>>().join(" ")).unwrap();
             }
-            match r.below(4) {
+            match r.below(5) {
+                4 => {
+                    // the twin that saw only the latest start_with (C09: it fully replaces earlier ones)
+                    writeln!(out, "upd 4 {} {}", b(t), tgt).unwrap();
+                    writeln!(out, "# eq C09 1 {}", 2 + (!untouched.is_empty()) as usize + tl.kfs.is_empty() as usize).unwrap();
+                }
                 0 => {
                     // permutation twin
                     writeln!(out, "upd 1 {} {}", b(t), tgt).unwrap();
